@@ -100,7 +100,7 @@ func snapBlock(h, n int, model map[[32]byte]*mRec, scripts map[string][]byte) bl
 			extra = 0 // the empty database stays empty: header-only snapshot
 		}
 		for k := 0; k < extra; k++ {
-			ops.add = append(ops.add, snapRecord(1000*h+k, uint32(h), scripts))
+			ops.add = append(ops.add, snapRecord(1000000*h+k, uint32(h), scripts)) // indexes far above any pool size: txids never repeat
 		}
 	}
 	return ops
